@@ -725,3 +725,67 @@ def tail_spellings(fn, attr: str) -> list[str]:
                 if t not in out and f"self.{attr}" not in t:
                     out.append(t)
     return out
+
+
+# ---- extract-method refactors ---------------------------------------------------------------------------------------------------------------
+_INLINED: dict = {}
+
+
+def with_tail_delegate(cls, name: str):
+    """FunctionInfo of method `name` with a *tail delegate* inlined: when the method ends (possibly inside try/finally) in
+    `return await self._helper(<its own parameters, by name>)` and `_helper` is a private method of the same class called from nowhere
+    else in the class, the returned function has the helper's body in place of that statement.  Rules stated on the method's paths
+    (ordering, must-pass, timeouts) then see through an `extract method` refactor.  The original tree is not modified."""
+    import copy
+    fn = cls.methods[name]
+    key = (id(fn.node), name)
+    if key in _INLINED:
+        return _INLINED[key]
+    target = None
+    for r in ast.walk(fn.node):
+        if isinstance(r, ast.Return) and r.value is not None:
+            v = r.value.value if isinstance(r.value, ast.Await) else r.value
+            if isinstance(v, ast.Call) and isinstance(v.func, ast.Attribute) and norm.raw(v.func.value) == "self" and v.func.attr.startswith("_") and v.func.attr in cls.methods and not v.keywords:
+                h = cls.methods[v.func.attr]
+                params = [a.arg for a in h.node.args.args[1:]]
+                if [norm.raw(a) for a in v.args] == params and sum(1 for m in cls.methods.values() for c in ast.walk(m.node) if isinstance(c, ast.Call) and norm.raw(c.func) == f"self.{v.func.attr}") == 1:
+                    target = (r, h)
+    if target is None:
+        _INLINED[key] = fn
+        return fn
+    r, h = target
+    node = copy.deepcopy(fn.node)
+    # find the copied return statement by position
+    rr = next(x for x in ast.walk(node) if isinstance(x, ast.Return) and x.lineno == r.lineno and x.col_offset == r.col_offset)
+    body = copy.deepcopy(h.node.body)
+    if body and isinstance(body[0], ast.Expr) and isinstance(body[0].value, ast.Constant) and isinstance(body[0].value.value, str):
+        body = body[1:]
+
+    def repl(parent):
+        for field, value in ast.iter_fields(parent):
+            if isinstance(value, list) and rr in value:
+                i = value.index(rr)
+                value[i:i + 1] = body
+                return True
+        return False
+
+    for parent in ast.walk(node):
+        if repl(parent):
+            break
+
+    def setp(n, par, field=None):
+        n.parent = par
+        n.pfield = field
+        n.mod = getattr(fn.node, "mod", None)
+        n.fn = None
+        for f_, v_ in ast.iter_fields(n):
+            for ch in (v_ if isinstance(v_, list) else [v_]):
+                if isinstance(ch, ast.AST):
+                    setp(ch, n, f_)
+
+    setp(node, getattr(fn.node, "parent", None))
+    merged = FunctionInfo(fn.module, node, fn.qualname, fn.cls, fn.outer)
+    for x in ast.walk(node):
+        x.fn = merged
+    _INLINED[key] = merged
+    return merged
